@@ -4,7 +4,6 @@ import (
 	"fmt"
 	"math/big"
 	"math/rand"
-	"strings"
 
 	pb "github.com/xuperchain/xupercore/bcs/ledger/xledger/xldgpb"
 	"github.com/xuperchain/xupercore/protos"
@@ -177,7 +176,7 @@ func (s *SUT) AttemptFamily(rng *rand.Rand, fam string, viaVerify bool) (Op, []P
 			ps = append(ps, Problem{Sig: "admission|admitted-inadmissible|" + lbl,
 				Detail: fmt.Sprintf("tx %x (%s) admitted although: %s", x.Txid, lbl, why)})
 		}
-		if derr != nil && adm && !strings.Contains(derr.Error(), "this transaction is in unconfirmed state") && !strings.Contains(derr.Error(), "already confirmed on the main chain") {
+		if derr != nil && adm && !sn.IsAlreadyPending(derr) && !sn.IsAlreadyConfirmed(derr) {
 			ps = append(ps, Problem{Sig: "admission|refused-admissible|" + lbl,
 				Detail: fmt.Sprintf("tx %x (%s) refused (%v) although every input is current and it is well formed", x.Txid, lbl, derr)})
 		}
